@@ -653,6 +653,19 @@ def uniLoop (endedArg : Bool) : Nat → Conn σ → Stream → Bytes → List Na
           | (.unblocked ids, q1) => uniLoop endedArg fuel { c with q := q1 } s [] (unb ++ ids)
         | _ => uniLoop endedArg fuel c s [] unb
 
+/-- body of `for stream_id in unblocked_streams:` for one stream: "resume headers",
+    reset the blocked state, "resume processing" of what was buffered meanwhile -/
+def resumeStream (cfg : Cfg) (st : Stream) (q : σ) : Outcome (Stream × σ × List Event) :=
+  match resumeFrame o cfg st.p st.blockedPush q (st.receivingEnded && st.buffer.isEmpty) with
+  | .error e => .error e
+  | .ok (p1, q1, ev1) =>
+    let st2 : Stream := { st with p := p1, blocked := false, blockedFrameSize := none, blockedPush := none }
+    if st2.buffer = [] then .ok (st2, q1, ev1)
+    else
+      match recvReq o cfg st2 q1 [] st2.receivingEnded with
+      | .error e => .error e
+      | .ok (st3, q2, ev2) => .ok (st3, q2, ev1 ++ ev2)
+
 /-- `for stream_id in unblocked_streams:` of `_receive_stream_data_uni` -/
 def processUnblocked : List Nat → Conn σ → List Event → Outcome (Conn σ × List Event)
   | [], c, evs => .ok (c, evs)
@@ -660,23 +673,18 @@ def processUnblocked : List Nat → Conn σ → List Event → Outcome (Conn σ 
     match lookupS id c.streams with
     | none => if c.cfg.k.unblockedKeyError then .error (.py .key) else processUnblocked ids c evs
     | some st =>
-      match resumeFrame o c.cfg st.p st.blockedPush c.q (st.receivingEnded && st.buffer.isEmpty) with
+      match resumeStream o c.cfg st c.q with
       | .error e => .error e
-      | .ok (p1, q1, ev1) =>
-        let st2 : Stream := { st with p := p1, blocked := false, blockedFrameSize := none, blockedPush := none }
-        if st2.buffer = [] then
-          processUnblocked ids { c with q := q1, streams := setS id st2 c.streams } (evs ++ ev1)
-        else
-          match recvReq o c.cfg st2 q1 [] st2.receivingEnded with
-          | .error e => .error e
-          | .ok (st3, q2, ev2) =>
-            processUnblocked ids { c with q := q2, streams := setS id st3 c.streams } (evs ++ ev1 ++ ev2)
+      | .ok (st3, q2, ev) =>
+        processUnblocked ids { c with q := q2, streams := setS id st3 c.streams } (evs ++ ev)
 
 /-- `_receive_stream_data_uni(stream, data, stream_ended)`; the stream is written
     back to the table under its id -/
 def recvUni (c : Conn σ) (s : Stream) (data : Bytes) (endedArg : Bool) : Outcome (Conn σ × List Event) :=
   let s : Stream := { s with buffer := s.buffer ++ data, receivingEnded := s.receivingEnded || endedArg }
-  match uniLoop o endedArg (s.buffer.length + 2) c s s.buffer [] with
+  -- the `buffer` attribute is read before the loop (`Buffer(data=stream.buffer)`) and written
+  -- after it: the loop state carries an empty one
+  match uniLoop o endedArg (s.buffer.length + 2) c { s with buffer := [] } s.buffer [] with
   | .error e => .error e
   | .ok (.ret c1 s1 evs) => .ok ({ c1 with streams := setS s1.streamId s1 c1.streams }, evs)
   | .ok (.brk c1 s1 rest unb) =>
